@@ -9,6 +9,7 @@ mod s_rd;
 mod s_wr;
 mod s_tx;
 mod s_pa;
+mod s_rn;
 mod alloc;
 
 #[global_allocator]
@@ -33,6 +34,8 @@ fn dispatch(line: &str) -> String {
         Some("o_rt") => s_pa::oracle_rt(&toks[1..]),
         Some("o_b2c") => s_pa::oracle_btor2_const(&toks[1..]),
         Some("o_wr") => s_wr::oracle(&toks[1..]),
+        Some("rn") => s_rn::run(&toks[1..]),
+        Some("o_rn") => s_rn::oracle(&toks[1..]),
         Some(s) => format!("HARNESS-ERROR unknown stream {s}"),
         None => String::new(),
     }
